@@ -52,11 +52,15 @@ def pushed(db):
 
 def oracle_convert(db, qtype, u, v, x):
     """Term of frombase_v(tobase_u(x)) obtained from the real closures (anchored by C01)."""
+    if isinstance(x, z3.ExprRef):
+        x = SymReal(x)  # never hand a raw z3 term to the closures: z3 would parse float coefficients as decimals
+    elif not isinstance(x, SymReal):
+        x = SymReal(term(x))
     if u == v:
-        return x
+        return x.expr
     iu = db.GetInfo(qtype, u, fix_unknown=True)
     iv = db.GetInfo(qtype, v, fix_unknown=True)
-    return iv.frombase(iu.tobase(x))
+    return term(iv.frombase(iu.tobase(x)))
 
 
 def slope_of(info_fn):
